@@ -18,6 +18,16 @@ claim("C01", "static analysis: sibling expression-tree equality (constant folder
       "Decides structural necessary conditions only: folded constant expressions use the VM's own arithmetic, every handler decodes exactly the fields the encoder writes for its opcode's format, every opcode is handled and emitted through the right encoder, boxed-number pages are never reused. It does not decide that emitted code computes the Lua result.",
       BASE + "Not covered: semantics of emitted instruction sequences.", "DESIGN.md §3 C01")
 
+claim("C03", "static analysis: must-pass-through / dominance on the pruned SSA CFG (close-upvalues before register reclaim in every recover arm, close before every register write in frame-discarding handlers), who-may-close and who-may-read ownership (typestate of the RefUpvalue flag), operand provenance of emitted OP_CLOSE",
+      "Decides that unwinding and every scope-exit construct closes up-values with a bound tied to the registers being discarded, that nothing on the raise path closes surviving frames' up-values, that RefUpvalue is only consulted when final and OP_CLOSE's operand is never a literal, and that the VM capture loop matches the compiler's capture list. It does not decide which block is marked or sharing/freshness of variables.",
+      BASE + "Register index of a local = its ordinal among active locals (compiler invariant, assumed).", "DESIGN.md §3 C03")
+claim("C05", "static analysis: must-pass-through on the pruned SSA CFG of PCall's deferred closures (stack pointer, current frame, register top, Panic mode restored from single-assignment captured cells on every path), panic-instruction reachability, who-may-call (entry points reach execution only through PCall), computed no-return set",
+      "Decides that every path out of a recovered panic restores the interpreter state captured before the protected call, that no Go panic is re-raised from the recover arms, that foreign panics are converted, and that the Lua/Go protected entry points all go through PCall. It does not decide exactly-once delivery or side-effect prefixes.",
+      BASE + "A deferred closure runs on every exit of its function.", "DESIGN.md §3 C05")
+claim("C12", "static analysis: sibling agreement by atom-wise comparison of path conditions (IsFull vs Push overflow per stack implementation, Push.Idx vs Sp()), dominance of guards (IsFull before every frame push, grow check before every register store), effect-sequence equality of the two main loops, option plumbing",
+      "Decides that overflow of either call-stack implementation and of the registry is detected by a guard that raises an ordinary Lua error before the faulting store, that raiseError cannot recurse on a full registry, that the context-aware loop is the plain loop plus a poll, and that Options reach the constructors unchanged. It does not decide equality of behaviour below the limits.",
+      BASE + "Go bounds checks: an element store at i fails exactly when i >= len.", "DESIGN.md §3 C12")
+
 for pid in ["C%02d" % i for i in range(2, 21)]:
     if pid not in P:
         na(pid, "check not built yet in this session (planned rules: DESIGN.md §3 %s); not claimed until its rules run clean" % pid)
